@@ -1,9 +1,13 @@
 (* Extraction of the strict slicing model together with the accessor model
    (Parse/Access.v): windows of every component and of every accessor result. *)
-From EP Require Import Base.Bytes Parse.Types Parse.Slices Parse.Cursor Parse.Access.
+From EP Require Import Base.Bytes Parse.Types Parse.Slices Parse.Cursor Parse.Access
+  Parse.LaxSlices Parse.LaxCursor Parse.LaxAccess.
 From Coq Require Import Extraction ExtrOcamlBasic.
 Extraction Language OCaml.
 Extraction "m_c01.ml"
   N.add N.mul N.of_nat
   SlicedPacket.from_ethernet SlicedPacket.from_linux_sll SlicedPacket.from_ether_type
-  SlicedPacket.from_ip SlicedPacketA.windows SlicedPacketA.accessors win_of.
+  SlicedPacket.from_ip SlicedPacketA.windows SlicedPacketA.accessors win_of
+  (* extend-c01b: the lax whole-packet entry points and their accessor model *)
+  LaxSlicedPacket.from_ethernet LaxSlicedPacket.from_ether_type LaxSlicedPacket.from_ip
+  LaxSlicedPacketA.windows LaxSlicedPacketA.accessors LaxSlicedPacketA.vlan_ids.
